@@ -450,7 +450,7 @@ func planC17(t *testing.T, tier string, seed uint64) ([]RunSpec, error) {
 	ns := []int{1, 2, 3, 5, 8}
 	sweepCap := 150
 	if !quick(tier) {
-		perCell = 1200
+		perCell = 4000
 		ns = []int{1, 2, 3, 4, 5, 6, 7, 8}
 		sweepCap = 0
 	}
@@ -492,7 +492,7 @@ func planC17(t *testing.T, tier string, seed uint64) ([]RunSpec, error) {
 	// host print errors in the middle of a fan-out
 	npf := 120
 	if !quick(tier) {
-		npf = 6000
+		npf = 40000
 	}
 	for k := 0; k < npf; k++ {
 		s := RunSpec{Property: "C17", Workload: "c17/print-fault", Params: map[string]int{"shape": []int{0, 4, 5}[k%3], "n": 2 + k%4, "iters": 2, "main_late": k % 3}, Fault: map[string]int{"print_fail_at": 1 + k%7}}
@@ -503,7 +503,7 @@ func planC17(t *testing.T, tier string, seed uint64) ([]RunSpec, error) {
 	// clause (e): free-mode runs under the race detector
 	nfree := 48
 	if !quick(tier) {
-		nfree = 1500
+		nfree = 4000
 	}
 	for k := 0; k < nfree; k++ {
 		plan = append(plan, RunSpec{Property: "C17", Workload: "c17/free-race", Params: map[string]int{"free": 1, "n": 1 + k%8, "iters": []int{5, 30, 120}[k%3], "gomaxprocs": []int{2, 4, 16}[(k/3)%3]}, Seed: runSeed(seed, 900000+k)})
